@@ -3,22 +3,52 @@
 (* Behaviour generator for IsoGrowth.tla (C20, spec -> code): every        *)
 (* complete behaviour of the repaired loop machine - the sequence of       *)
 (* (exponent, stop code) steps up to the returned list - is printed once   *)
-(* and replayed into the real Ellipse.fit_image with fit_isophote replaced *)
-(* by a stub that returns real Isophote objects carrying the dictated stop *)
-(* codes.  hist is a history variable (no VIEW: distinct histories are     *)
-(* distinct states, which is what makes every behaviour appear).           *)
+(* and replayed into the real Ellipse.fit_image / fit_isophote /           *)
+(* _non_iterative / _fix_last_isophote with only Ellipse._iterative (the   *)
+(* numerical fitter) replaced by a stub that returns real Isophote objects *)
+(* carrying the dictated stop codes.  hist is a history variable (no VIEW: *)
+(* distinct histories are distinct states, which is what makes every       *)
+(* behaviour appear).                                                      *)
+(*                                                                         *)
+(* GEOMETRY FLOW.  geo runs parallel to list: geo[j].born is the number of *)
+(* the fit_isophote call that produced list[j], geo[j].g names the         *)
+(* geometry (centre, eps, PA) the isophote carries.  0 is the user's first *)
+(* guess.  A fit starts from the geometry of isophote_list[-1] (from 0     *)
+(* when the list is empty - also the first inward fit therefore starts     *)
+(* from the OUTERMOST isophote); an iterative fit ends with a fresh        *)
+(* geometry named after its call number, a non-iterative one keeps the     *)
+(* geometry it started from.  _fix_last_isophote replaces the geometry of  *)
+(* a failed fit by that of the isophote BEFORE it in the list (outward) /  *)
+(* of the first isophote of the list (inward), read after the failed one   *)
+(* was popped.  NoDivergedGeometry: no returned isophote that had failed   *)
+(* (code 5, or 1 on the outward pass - an inward 1 is left as it is) carries the geometry its own fit     *)
+(* ended with.                                                             *)
 (***************************************************************************)
 EXTENDS IsoGrowth, Json
-VARIABLES hist, emitted
-gvars == <<phase, k, list, noiter, hist, emitted>>
-GInit == Init /\ hist = <<>> /\ emitted = FALSE
-GOut == \E c \in OutCodes(k) : FitOut(Par, c, FALSE) /\ hist' = Append(hist, <<k, c>>) /\ UNCHANGED emitted
-GIn == \E c \in InCodes(k) : FitIn(Par, c) /\ hist' = Append(hist, <<k, c>>) /\ UNCHANGED emitted
-GCentral == CentralAndSort(Par) /\ UNCHANGED <<hist, emitted>>
+VARIABLES hist, emitted, geo
+gvars == <<phase, k, list, noiter, hist, emitted, geo>>
+GInit == Init /\ hist = <<>> /\ emitted = FALSE /\ geo = <<>>
+StartG == IF list = <<>> THEN 0 ELSE Last(geo).g                         \* fit_isophote: isophote_list[-1].sample.geometry, else self._geometry
+EndG(c) == IF c = 4 THEN StartG ELSE Len(hist) + 1                      \* _non_iterative keeps the geometry, the fitter moves it
+\* geo' from list -> list' (list' is decided by FitOut / FitIn); ref = geometry a failed fit is repaired with
+GeoStep(c, failed, ref) ==
+  geo' = IF list' = <<>> THEN <<>>
+         ELSE IF Len(list') = Len(list) + 1 THEN Append(geo, [born |-> Len(hist) + 1, g |-> IF failed THEN ref ELSE EndG(c)])
+         ELSE geo
+GOut == \E c \in OutCodes(k) : /\ FitOut(Par, c, FALSE) /\ hist' = Append(hist, <<k, c, StartG>>) /\ UNCHANGED emitted
+                              /\ GeoStep(c, c < 0 \/ c = 1, IF geo = <<>> THEN 0 ELSE Last(geo).g)          \* _fix_last_isophote(isophote_list, -1)
+GIn == \E c \in InCodes(k) : /\ FitIn(Par, c) /\ hist' = Append(hist, <<k, c, StartG>>) /\ UNCHANGED emitted
+                            /\ GeoStep(c, c < 0, geo[1].g)                                                   \* _fix_last_isophote(isophote_list, 0)
+\* the sort permutes geo with list (exponents are unique); the central isophote has no tracked geometry
+GCentral == /\ CentralAndSort(Par) /\ UNCHANGED <<hist, emitted>>
+            /\ geo' = [n \in 1..Len(list') |-> IF list'[n].k = Central THEN [born |-> 0, g |-> 0]
+                                               ELSE geo[CHOOSE j \in 1..Len(list) : list[j].k = list'[n].k]]
 Emit == /\ phase = "done" /\ ~emitted
-        /\ PrintT(<<"GEN", ToJson([calls |-> hist, final |-> [n \in 1..Len(list) |-> <<list[n].k, list[n].code>>],
+        /\ PrintT(<<"GEN", ToJson([calls |-> hist, final |-> [n \in 1..Len(list) |-> <<list[n].k, list[n].code, geo[n].g>>],
                                    HasMax |-> HasMax, KMax |-> KMax, KMin |-> KMin, MinZero |-> MinZero, HasRit |-> HasRit, KRit |-> KRit])>>)
-        /\ emitted' = TRUE /\ UNCHANGED <<phase, k, list, noiter, hist>>
+        /\ emitted' = TRUE /\ UNCHANGED <<phase, k, list, noiter, hist, geo>>
 GNext == GOut \/ GIn \/ GCentral \/ Emit
 GSpec == GInit /\ [][GNext]_gvars
+GeoShape == Len(geo) = Len(list)
+NoDivergedGeometry == phase = "done" => \A j \in 1..Len(list) : (list[j].k # Central /\ (list[j].code = 5 \/ (list[j].code = 1 /\ list[j].k > 0))) => geo[j].g # geo[j].born
 =============================================================================
